@@ -334,6 +334,26 @@ def main(tier, seed):
                 disagreements += 1
                 res.violation("model main()/process_options and check-express disagree under %s: model %s tool %s" % (opts, mprinted, got),
                               {"theorem_or_correspondence": "correspondence C20: coq/ExpErr.v process_options vs fedex.c/error.c"}, found_input=False)
+    # ---- the line of a diagnostic, for faults whose line is known by construction: padded with k blank lines before the schema
+    lcases = [("unterminated_string", "SCHEMA u1;\nENTITY a;\n  x : INTEGER;\nDERIVE\n  s : STRING := 'abc\n  ;\nEND_ENTITY;\nEND_SCHEMA;\n", 29, 5),
+              ("unterminated_encoded_string", "SCHEMA u2;\nCONSTANT\n  c : STRING := \"0000004A\n  ;\nEND_CONSTANT;\nEND_SCHEMA;\n", 29, 3),
+              ("undefined_type", "SCHEMA u3;\nENTITY a;\n  x : INTEGER;\n  y : nosuchtype;\nEND_ENTITY;\nEND_SCHEMA;\n", None, 4),
+              ("illegal_character", "SCHEMA u4;\nENTITY a;\n  x : INTEGER;\n\n\n  $\nEND_ENTITY;\nEND_SCHEMA;\n", 33, 6),
+              ("underscore_identifier", "SCHEMA u5;\nENTITY a;\n  _x : INTEGER;\nEND_ENTITY;\nEND_SCHEMA;\n", 32, 3)]
+    for (lname, ltext, lcode, lline) in lcases:
+        for pad in (0, 1, 7):
+            fl = os.path.join(wdir, "line.exp")
+            open(fl, "w", encoding="latin-1").write("\n" * pad + ltext)
+            rcl, ol, el = sh([os.path.join(bdir, "bin", "check-express"), fl], timeout=60, cwd=wdir)
+            evals += 1
+            hist["line_cases"] = hist.get("line_cases", 0) + 1
+            found = [(int(m_.group(1)), int(m_.group(2))) for m_ in re.finditer(r"line\.exp:(\d+): --ERROR PE(\d+)", ol + el)]
+            hits = [ln for (ln, cd) in found if lcode is None or cd == lcode]
+            if not hits or hits[0] != lline + pad:
+                oracle_fail += 1
+                pth_ = save("c20-line-%s-%d.exp" % (lname, pad), "\n" * pad + ltext)
+                res.violation("%s on line %d is reported on line %s (%s)" % (lname, lline + pad, hits[:1] or "none", found[:3]),
+                              {"input_file": pth_, "replay": "%s/bin/check-express %s" % (bdir, pth_)})
     # ---- buffered output (-B): the diagnostics of a faulty schema are the same, each once, as without -B - also when a fatal
     # one (a syntax error) makes the buffer be flushed before the end
     bcases = [("syntax_error_after_lexical_ones", "SCHEMA b1;\nENTITY a;\n  x : INTEGER;\n  $\nEND_ENTITY;\nENTITY b;\n  _y : INTEGER;\n  z  INTEGER;\nEND_ENTITY;\nEND_SCHEMA;\n"),
@@ -342,13 +362,17 @@ def main(tier, seed):
               ("two_syntax_errors_in_two_schemas", "SCHEMA b4;\nENTITY a;\n  x  INTEGER;\nEND_ENTITY;\nEND_SCHEMA;\nSCHEMA b5;\nENTITY c;\n  _q : INTEGER;\n  y  REAL;\nEND_ENTITY;\nEND_SCHEMA;\n")]
     for (_c, d_, t_, _e) in catalogue[:12 if tier == "quick" else len(catalogue)]:
         bcases.append((os.path.basename(d_), t_))
+    # correct schemas that raise warnings only: a few, and more than the buffer holds (100)
+    for nw in (3, 99, 100, 101, 120, 250):
+        bcases.append(("warnings_only_%d" % nw, "SCHEMA bw;\nCONSTANT\n" + "".join("  c%d : REAL := 1.0e-45;\n" % j for j in range(nw)) + "END_CONSTANT;\nENTITY e;\n  a : INTEGER;\nEND_ENTITY;\nEND_SCHEMA;\n"))
     for (bname, btext) in bcases:
         fb = os.path.join(wdir, "buffered.exp")
         open(fb, "w", encoding="latin-1").write(btext)
         outs = {}
+        wopt = ["-w", "limits"] if bname.startswith("warnings_only") else []
         for opt in ([], ["-B"]):
-            rcb, ob, eb = sh([os.path.join(bdir, "bin", "check-express")] + opt + [fb], timeout=60, cwd=wdir)
-            outs[bool(opt)] = (rcb, sorted(re.findall(r"(ERROR|WARNING) PE(\d+)", ob + eb)))
+            rcb, ob, eb = sh([os.path.join(bdir, "bin", "check-express")] + opt + wopt + [fb], timeout=60, cwd=wdir)
+            outs[bool(opt)] = (rcb, sorted(re.findall(r"(ERROR|WARNING) P[EW](\d+)", ob + eb)))
         evals += 1
         hist["buffered_compared"] = hist.get("buffered_compared", 0) + 1
         if outs[True] != outs[False]:
